@@ -61,6 +61,7 @@ def run_case(case, cx):
     d, b1, b2 = pairs.build_pair(cx, m, m2, cfg, full_debug=False)
     cx.cls(*["rw=" + k for k in set(info["kinds"])])
     cx.cls("lang=" + m["lang"], "cc=" + cfg["cc"], "dwarf=%d" % cfg["dwarf"], "kind=" + cfg["kind"])
+    cx.cls("named-inline-hosts=%d" % len([t for t in m["types"] if any("vname" in mm for mm in t.get("members", []))]))
     if set(info["kinds"]) & {"move_tu", "blank_lines", "reverse_defs", "link_order"}:
         cx.nt(case)
     for a, b, tag in ((b1, b2, "fwd"), (b2, b1, "rev")):
